@@ -115,8 +115,12 @@ type Exec struct {
 	MultiEventSteps int
 	stepEvents      int
 	Log             []string
+	UserData        interface{}
 	stackBuf        []byte
 }
+
+// MaxDump is the largest goroutine dump seen (diagnostics).
+var MaxDump int
 
 // cur is the execution in progress (one at a time per process).
 var cur *Exec
@@ -129,6 +133,19 @@ func Active() bool { x := cur; return x != nil && x.active }
 
 //go:norace
 func Current() *Exec { return cur }
+
+// Mine reports whether an execution is active AND the calling goroutine was
+// created during it (goroutines left over from an earlier execution must
+// never touch the current one).
+//
+//go:norace
+func Mine() bool {
+	x := cur
+	if x == nil || !x.active {
+		return false
+	}
+	return curGoid() > x.baseGoid
+}
 
 //go:norace
 func curGoid() int64 {
@@ -154,18 +171,19 @@ func NewExec(prefix []int, prefixN []int) *Exec {
 	return x
 }
 
+// maxGoid returns a goroutine id that every goroutine created from now on
+// exceeds: the id of a probe goroutine (ids are handed out in increasing
+// order on one P; E2 workers run with GOMAXPROCS=1).
+//
 //go:norace
 func maxGoid() int64 {
-	buf := make([]byte, 1<<20)
-	n := runtime.Stack(buf, true)
-	var max int64
-	for _, g := range parseStacks(buf[:n]) {
-		if g.id > max {
-			max = g.id
-		}
-	}
-	return max
+	ch := make(chan int64, 1)
+	go goidProbe(ch)
+	return <-ch
 }
+
+//go:norace
+func goidProbe(ch chan int64) { ch <- curGoid() }
 
 type ginfo struct {
 	id     int64
@@ -325,7 +343,7 @@ func NowNS() int64 {
 func NewVTimer(d int64, fn func()) *VTimer {
 	x := cur
 	vt := &VTimer{C: make(chan time.Time, 1), Fn: fn}
-	if x == nil || !x.active {
+	if x == nil || !x.active || curGoid() <= x.baseGoid {
 		vt.State = 2
 		return vt
 	}
@@ -369,7 +387,7 @@ func (vt *VTimer) Reset(d int64) bool {
 //go:norace
 func NoteClose() {
 	x := cur
-	if x != nil && x.active {
+	if x != nil && x.active && curGoid() > x.baseGoid {
 		x.CloseEvents++
 		x.stepEvents++
 	}
@@ -407,6 +425,12 @@ func (x *Exec) waitQuiescent() bool {
 	for spin := 0; ; spin++ {
 		runtime.Gosched()
 		n := runtime.Stack(x.stackBuf, true)
+		if n >= len(x.stackBuf)-1 {
+			panic("sched: goroutine dump truncated (too many live goroutines)")
+		}
+		if n > MaxDump {
+			MaxDump = n
+		}
 		gs := parseStacks(x.stackBuf[:n])
 		me := curGoid()
 		busy := false
@@ -565,7 +589,11 @@ func (x *Exec) Run() {
 		if step < len(x.prefix) {
 			c = x.prefix[step]
 			if step < len(x.prefixN) && x.prefixN[step] != len(en) {
-				x.Nondet = fmt.Sprintf("step %d: %d enabled on replay, %d when recorded", step, len(en), x.prefixN[step])
+				desc := ""
+				for _, it := range en {
+					desc += x.describe(it) + ", "
+				}
+				x.Nondet = fmt.Sprintf("step %d: %d enabled on replay (%s), %d when recorded", step, len(en), desc, x.prefixN[step])
 				break
 			}
 			if c >= len(en) {
@@ -680,6 +708,23 @@ func (x *Exec) AllHarnessDone() bool {
 		}
 	}
 	return true
+}
+
+// LiveStacks returns the stack dump of goroutines created during the execution that still exist.
+//go:norace
+func (x *Exec) LiveStacks() string {
+	n := runtime.Stack(x.stackBuf, true)
+	me := curGoid()
+	var out []byte
+	for _, blk := range bytes.Split(x.stackBuf[:n], []byte("\n\n")) {
+		gs := parseStacks(blk)
+		if len(gs) == 0 || gs[0].id == me || gs[0].id <= x.baseGoid {
+			continue
+		}
+		out = append(out, blk...)
+		out = append(out, '\n', '\n')
+	}
+	return string(out)
 }
 
 // LiveGoroutines lists goroutines created during the execution that still exist (for leak checks).
